@@ -255,8 +255,8 @@ PROPS = {
         'geoms': {'quick': ['default', 'th1'], 'thorough': ALLG},
         'runs': {'quick': [seq('mixed', 30, 150), seq('change', 10, 150)], 'thorough': [seq('mixed', 800, 300), seq('change', 300, 300), seq('drain', 200, 300)]},
         'rule': S_RULE + ' Oracle: the per-class rows of tree_stats() partition its totals (sum of class free = free_frames, sum of class trees = trees) and no row is negative/wrapped.',
-        'partial': ('proved: Trees::stats partitions counters over classes for every table; the whole tree_stats program never panics, reads only and its '
-                    'per-class free counts sum to the fast total; that the F9 correction never saturates (free+alloc partition after the slot passes) is carried by the correspondence'),
+        'partial': ('proved for every invariant state of every sequential history of a constructed allocator (whole tree_stats program, both sums); '
+                    'quiescent ends of concurrent interleavings are explored'),
         'assumptions': [],
     },
     'C15': {
